@@ -104,6 +104,12 @@ MIXES = {
                   'stop_process': 2, 'restart_process': 1},
     'all': dict({k: 1 for k in OPS}, restart=0.3, shutdown=0.3, change_log_level=0.2),
     'direct': {'supervisor.startProcess': 1},
+    'gated': {'get_all_applications_info': 0.5, 'get_application_info': 1, 'get_application_rules': 1,
+              'get_all_process_info': 0.5, 'get_process_info': 1, 'get_process_rules': 1, 'get_conflicts': 1,
+              'start_application': 2, 'restart_application': 2, 'test_start_application': 1, 'start_process': 2,
+              'restart_process': 1, 'test_start_process': 1, 'start_any_process': 1, 'update_numprocs': 1, 'enable': 1,
+              'disable': 1, 'restart_sequence': 1, 'stop_application': 2, 'stop_process': 2, 'conciliate': 2,
+              'end_sync': 2, 'restart': 0.3, 'shutdown': 0.3, 'supervisor.startProcess': 2},
 }
 
 
